@@ -318,6 +318,7 @@ class Monitor:
     hard_timeout: dict = field(default_factory=lambda: {"quick": 900, "thorough": 7200})
     max_shards: int = 16
     setup: callable | None = None      # called once per shard after dreye import
+    exhaustive_claim: str = ""         # non-empty: which finite space this monitor enumerates completely (evidence.exhaustive)
 
     def add(self, name, gen, check, weight=1, min_held=1, enumerated=None,
             tiers=("quick", "thorough")):
